@@ -21,11 +21,11 @@ Definition ignores_underb (mk : modk) : bool :=
   | MWith | MOff | MAbove | MBelow | MFork | MBracket | MTry | MDipN _
   | MReduce | MScan | MFold | MRows | MEach | MInventory | MTable | MTuples | MGroup | MPartition
   | MSpawn | MPool | MRepeat | MRepeatWithInverse | MStencil | MReduceContent | MReduceDepth _
-  | MHandleSig | MDo => true
+  | MHandleSig | MDo | MUndoRows | MUndoInventory => true
   | _ => false end.
 (** modifiers checked in context whose run-time form uses the stored signature: it must be the inferred one *)
 Definition needs_exactb (mk : modk) : bool :=
-  match mk with MBy | MRows | MEach | MInventory | MRepeat | MRepeatWithInverse => true | _ => false end.
+  match mk with MBy | MRows | MEach | MInventory | MRepeat | MRepeatWithInverse | MUndoRows | MUndoInventory => true | _ => false end.
 
 Section Ok.
   Variable asm : list node.
@@ -78,7 +78,7 @@ Definition mod_modelled (mk : modk) (nargs : nat) : bool :=
   | (MDip | MGap | MOn | MBy | MWith | MOff | MAbove | MBelow | MBoth | MCase | MDipN _
      | MReduce | MScan | MFold | MRows | MEach | MInventory | MTable | MTuples | MGroup | MPartition
      | MSpawn | MPool | MRepeat | MStencil | MReduceContent | MReduceDepth _
-     | MHandleSig | MOnSub _ | MBothImpl 0 _ | MUnBothImpl 0 _), 1 => true
+     | MHandleSig | MOnSub _ | MBothImpl 0 _ | MUnBothImpl 0 _ | MUndoRows | MUndoInventory), 1 => true
   | (MFork | MBracket | MFill | MTry | MRepeatWithInverse | MDo), 2 => true
   | MTry, S (S (S _)) => true      (* any number of handlers *)
   | _, _ => false end.
